@@ -3,6 +3,7 @@ import PqModel.Codec
 import PqModel.Lz4Encode
 import PqModel.Spec.BlockCodecs
 import PqModel.Spec.Inflate
+import PqModel.Spec.InflateFixed
 
 /-! C20 ops: run the pool model of compress/compress.go over a history with the toy stream
 family plugged in (the Go side plugs the same toy streams into the real
@@ -141,6 +142,7 @@ def handle (toks : List String) : Option String :=
      reference encoder -/
   | ["gzip.decode", x] => some <| inflateOp x PqModel.Spec.Inflate.gunzip
   | ["inflate.decode", x] => some <| inflateOp x PqModel.Spec.Inflate.inflate
+  | ["inflate.fixedenc", x] => some <| inflateOp x (fun b => .ok (PqModel.Spec.Inflate.fixedLiterals b))
   | ["gzip.stored", x] => some <| inflateOp x (fun b => .ok (PqModel.Spec.Inflate.gzipStored b))
   | "codec.run" :: cfg :: pol :: fuel :: ops => some <|
     match parseCfg? cfg, parseNat? fuel, ops.mapM parseCall? with
